@@ -32,22 +32,39 @@ def make_faulty():
     class ObserverBoom(Exception):
         pass
 
+    class ObserverTimeout(TimeoutError):
+        """An exporter's own deadline (TimeoutError is also asyncio.TimeoutError and socket.timeout)."""
+
+    # the failing observer raises exceptions of several ordinary classes in turn, and is an UNHASHABLE object in a
+    # third of the cases (a processor written as a dataclass, or defining __eq__ only)
+    EXCS = [ObserverBoom, ObserverTimeout, TimeoutError, OSError, KeyError, LookupError, AssertionError, ObserverBoom]
+
     class Faulty(EventProcessor):
+        _made = [0]
+
         def __init__(self, k=None, every=False, at_shutdown=False):
             self.k, self.every, self.at_shutdown, self.n = k, every, at_shutdown, 0
             self.fired = []
+            Faulty._made[0] += 1
+            self.exc_cls = EXCS[Faulty._made[0] % len(EXCS)]
+            self.unhashable = Faulty._made[0] % 3 == 0
+            if self.unhashable:
+                self.__class__ = _unhashable_twin(type(self))
+
+        def _raise(self, msg):
+            raise self.exc_cls(msg)
 
         def on_event(self, event):
             i = self.n
             self.n += 1
             if self.every or i == self.k:
                 self.fired.append(type(event).__name__ + ("/nested" if getattr(event, "parent_span_id", None) and type(event).__name__ == "RunStartEvent" else ""))
-                raise ObserverBoom(f"observer failed at event {i}")
+                self._raise(f"observer failed at event {i}")
 
         def shutdown(self):
             if self.at_shutdown:
                 self.fired.append("shutdown")
-                raise ObserverBoom("observer failed at shutdown")
+                self._raise("observer failed at shutdown")
 
     class AFaulty(AsyncEventProcessor, Faulty):
         async def on_event_async(self, event):
@@ -57,6 +74,13 @@ def make_faulty():
         async def shutdown_async(self):
             await asyncio.sleep(0)
             Faulty.shutdown(self)
+
+    _twins = {}
+
+    def _unhashable_twin(cls):
+        if cls not in _twins:
+            _twins[cls] = type(cls.__name__ + "Unhashable", (cls,), {"__eq__": lambda a, b: a is b, "__hash__": None})
+        return _twins[cls]
 
     return Faulty, AFaulty
 
